@@ -43,7 +43,7 @@ def T(op, *args):
 def index_key(v):
     """the quantity an index stands for: `usize::from(b)`, `b as usize`, `e as usize` are keyed by b / discr(e), so that the
     fork's atoms read like the `if b` / `match e` they replace"""
-    while v[0] == 't' and v[1] == 'cast' and len(v[2]) >= 1 and v[2][0][0] in ('t', 'sym'):
+    while v[0] == 't' and v[1] in ('cast', 'conv') and len(v[2]) >= 1 and v[2][0][0] in ('t', 'sym'):
         v = v[2][0]
     return v
 
@@ -824,6 +824,16 @@ class Engine:
                     continue
                 vals = [val for val, _ in t['targets']]
                 branches = [(('==', val), b) for val, b in t['targets']] + [(('!=', tuple(vals)), t['otherwise'])]
+                # a two-way branch on `discr(x) == k` / `!= k` (what a derived PartialEq against a known variant computes) is
+                # the discriminant test itself: record it on discr(x), like the `match` it stands for
+                if v[0] == 't' and v[1] in ('Eq', 'Ne') and len(v[2]) == 2 and vals == [0]:
+                    for dx, kx in (v[2], v[2][::-1]):
+                        if dx[0] == 't' and dx[1] == 'discr' and is_int_const(kx):
+                            eq_tgt = t['otherwise'] if v[1] == 'Eq' else t['targets'][0][1]
+                            ne_tgt = t['targets'][0][1] if v[1] == 'Eq' else t['otherwise']
+                            v = dx
+                            branches = [(('==', kx[1]), eq_tgt), (('!=', (kx[1],)), ne_tgt)]
+                            break
                 if self.assume_asserts:
                     # `assert!(c)` / `debug_assert!(c)`: the branch that fails the assertion is not a behaviour of the
                     # function the tables describe (whether it can fire is audited where panics matter, C14.M3); the path
